@@ -3,6 +3,7 @@ package checks
 import (
 	"fmt"
 	"math"
+	"strconv"
 	"strings"
 	"time"
 
@@ -504,7 +505,83 @@ func buildC20(cfg *mon.Config) []*mon.Sub {
 		},
 		Exec: func(c *mon.Case) { c20Run(c, c.Payload) }, Sample: c20Sample,
 	}
-	return []*mon.Sub{host, exh, rnd}
+	large := &mon.Sub{
+		Name: "large-arrays-and-nested-equality", Rule: "for n in 0..70, 127..130, 255..258: an array of n elements, its clone, an indexed write one and two past the end and SetLength(n+3) on the clone and on the original (every slot read back: padded slots must be null variants, the other side untouched); nested arrays that contain the same row object twice compared with arrays that differ only in the second row (Equals false in both directions, and equal to their clones)",
+		Exhaustive: true, DistinctByGen: true, Floor: 20,
+		Gen: func(emit func(string)) {
+			for n := 0; n <= 70; n++ {
+				emit(strconv.Itoa(n))
+			}
+			for _, n := range []int{127, 128, 129, 130, 255, 256, 257, 258} {
+				emit(strconv.Itoa(n))
+			}
+		},
+		Exec: func(c *mon.Case) {
+			c.NonTrivial()
+			n, _ := strconv.Atoi(c.Payload)
+			mk := func() ([]*variants.Variant, Val) {
+				l := make([]*variants.Variant, n)
+				m := vArr()
+				for i := range l {
+					l[i] = variants.VariantFromInteger(i)
+					m.E = append(m.E, vInt(i))
+				}
+				return l, m
+			}
+			for _, skip := range []int{0, 1, 2} {
+				for _, onClone := range []bool{true, false} {
+					l, m := mk()
+					orig := variants.VariantFromArray(l)
+					var clone *variants.Variant
+					if p := mon.Try(func() { clone = orig.Clone() }); p != nil {
+						c.FailPanic("Clone", p)
+						return
+					}
+					target, other := clone, orig
+					if !onClone {
+						target, other = orig, clone
+					}
+					want := vArr(m.E...)
+					if p := mon.Try(func() {
+						target.SetByIndex(n+skip, variants.VariantFromString("w"))
+						for len(want.E) < n+skip {
+							want.E = append(want.E, vNull())
+						}
+						want.E = append(want.E, vStr("w"))
+						target.SetLength(n + skip + 3)
+						want.E = append(want.E, vNull(), vNull())
+					}); p != nil {
+						c.FailPanic("SetByIndex/SetLength", p)
+						return
+					}
+					if got := snap(target); !got.Same(want) {
+						c.Failf("indexed write past the end does not grow the array with nulls", "n=%d write at n+%d on the %s: got %s, want %s", n, skip, map[bool]string{true: "clone", false: "original"}[onClone], got, want)
+						return
+					}
+					if got := snap(other); !got.Same(m) {
+						c.Failf("array variant does not hold its own copy of the list (or index writes misbehave)", "n=%d: writing to the %s changed the other side: %s", n, map[bool]string{true: "clone", false: "original"}[onClone], got)
+						return
+					}
+				}
+			}
+			// nested equality with a shared row
+			row := variants.VariantFromArray([]*variants.Variant{variants.VariantFromInteger(1), variants.VariantFromInteger(n)})
+			left := variants.VariantFromArray([]*variants.Variant{row, row})
+			r1 := variants.VariantFromArray([]*variants.Variant{variants.VariantFromInteger(1), variants.VariantFromInteger(n)})
+			r2 := variants.VariantFromArray([]*variants.Variant{variants.VariantFromInteger(1), variants.VariantFromInteger(n + 1)})
+			right := variants.VariantFromArray([]*variants.Variant{r1, r2})
+			same := variants.VariantFromArray([]*variants.Variant{r1, r1.Clone()})
+			var e1, e2, e3, e4 bool
+			if p := mon.Try(func() { e1, e2, e3, e4 = left.Equals(right), right.Equals(left), left.Equals(same), same.Equals(left) }); p != nil {
+				c.FailPanic("Variant.Equals", p)
+				return
+			}
+			if e1 || e2 || !e3 || !e4 {
+				c.Failf("Equals disagrees with value equality", "[[1,%d],[1,%d]] (one shared row object) vs [[1,%d],[1,%d]]: %v / %v; vs an equal array of separate rows: %v / %v", n, n, n, n+1, e1, e2, e3, e4)
+			}
+		},
+	}
+	return []*mon.Sub{host, exh, rnd, large}
 }
 
 type hostCase struct {
